@@ -72,6 +72,7 @@ SINGLE = ("HCT", "VHCT", "StoSOO", "SequOOL", "StroquOOL")
 class C04(Oracle):
     prop = "C04"
     FULL_EVERY = 37
+    lenient = False   # Ledger (below): only identify the credited cell and build the ledger, judge nothing else
 
     def __init__(self, ctx):
         super().__init__(ctx)
@@ -204,6 +205,8 @@ class C04(Oracle):
         self._moments(ag, n, led, what)
 
     def _moments(self, ag, n, led, what):
+        if self.lenient:
+            return
         ctx = self.ctx
         k = ag["kind"]
         if k in ("T_HOO", "HCT", "VHCT", "StoSOO") and led.list:
@@ -348,7 +351,7 @@ class C04(Oracle):
                 raise HarnessError("VROOM: np.random.choice was not called over the ranked cells")
             self.vroom_drawn = cells[ch["index"]]
             ctx.vroom = {"drawn": self.vroom_drawn, "p": ch["p"], "cells": cells}
-        if name in WRAPPERS:
+        if name in WRAPPERS and not self.lenient:
             pulls = [e for e in self.top_pull_events if e[0] == "pull"]
             if name == "POO":
                 if len(pulls) != 1 or not same_point(pulls[0][2], p):
@@ -402,6 +405,8 @@ class C04(Oracle):
         ctx.zoom_ledger = self.zoom
 
     def _wrapper(self, name, p, r):
+        if self.lenient:
+            return
         ctx = self.ctx
         ev = ctx.spy_log[self.spy_mark:]
         rews = [e for e in ev if e[0] == "rew"]
@@ -437,6 +442,8 @@ class C04(Oracle):
 
     # ------------------------------------------------------------------ whole-tree comparisons
     def conservation(self, ag):
+        if self.lenient:
+            return
         ctx = self.ctx
         k = ag["kind"]
         if k not in EVIDENCE or ag["part"] is None:
@@ -465,6 +472,8 @@ class C04(Oracle):
                 ctx.fail("C04", "conservation", "%s: %d cells marked evaluated after %d rounds" % (k, tot, done))
 
     def full_compare(self, ag):
+        if self.lenient:
+            return
         ctx = self.ctx
         k = ag["kind"]
         if k not in EVIDENCE or ag["part"] is None:
@@ -510,6 +519,13 @@ class C04(Oracle):
             if rec["part"] is not None:
                 self.full_compare(rec)
                 self.conservation(rec)
+
+
+class Ledger(C04):
+    """C04 armed as infrastructure for another property's check: it identifies the credited
+    cell(s) and keeps the ledger; means, variances, conservation, whole-tree comparisons and
+    wrapper routing are not judged here (they are C04's own check's business)."""
+    lenient = True
 
 
 def gpo_schedule(kw):
